@@ -290,6 +290,29 @@ def run(shard, ctx):
                     unit = meter[1] if meter[1] else 4
                     hist.append(("+", "D"))
                     ok = do_place(ctx, bar, model, MU.Val(unit), "D", hist, meter, via="+")
+                elif r < 0.68:
+                    # a placement the library must refuse by raising (malformed content): nothing may be left behind
+                    before = snapshot(bar)
+                    badc = rng.choice(["H", "C#x", ["C", "H"], ["H"], "c"])
+                    v = rng.choice(pool)
+                    hist.append(("place (malformed content)", v.label, repr(badc)))
+                    st, rr = ctx.call(bar.place_notes, badc, v.value)
+                    ctx.check("accept: a placement refused by an error changes nothing", st == "exc" and snapshot(bar) == before,
+                              {"meter": meter, "history": hist}, before if st == "exc" else "an exception", snapshot(bar) if st == "exc" else repr(rr),
+                              mechanism="raised-placement-changed")
+                elif r < 0.72 and meter != (0, 0):
+                    # the meter is set again on the bar as it stands (same, longer or shorter)
+                    newm = rng.choice([meter, (meter[0] + 1, meter[1]), (max(1, meter[0] - 1), meter[1]), (meter[0] * 2, meter[1] * 2), (2, 4), (6, 8)])
+                    hist.append(("set_meter", newm))
+                    st, rr = ctx.call(bar.set_meter, newm)
+                    if st == "ok":
+                        meter = newm
+                        model.meter = tuple(newm)
+                        model.length = Fraction(newm[0], newm[1])
+                    else:
+                        ctx.check("meter: power-of-two beat units and (0,0) are accepted with length count/unit", False,
+                                  {"history": hist}, None, repr(rr), mechanism="set_meter-mid-history")
+                        break
                 elif r < 0.82 and model.entries:
                     hist.append(("remove-last",))
                     bar.remove_last_entry()
